@@ -1761,7 +1761,8 @@ public:
 
         for ( size_type k = n; k > l; k-- )
         {
-            word_type q = DDquotient(rem_view[k], rem_view[k-1], d);
+            // DDquotient requires rem_view[k] < d; when they are equal the quotient digit is the largest word
+            word_type q = rem_view[k] >= d ? max_word : DDquotient(rem_view[k], rem_view[k-1], d);
             subtractmul( rem_view.data() + (k - l - 1), denom_view.data(), l + 1, q );
             quot_view[k - l - 1] = q;
         }
